@@ -264,6 +264,17 @@ def events {D} : List (Step D) → List Err
   | .result _ :: k => events k
   | .stop :: _ => []
 
+/-- the error events that a skip-mode run still yields: the `direct` ones that exist in skip mode
+    (collected errors are dropped by raise_or_collect, the reference check finds nothing). -/
+def skipDirects {D} : List (Step D) → List Err
+  | [] => []
+  | .collect _ :: k => skipDirects k
+  | .direct e true :: k => e :: skipDirects k
+  | .direct _ false :: k => skipDirects k
+  | .flush :: k => skipDirects k
+  | .result _ :: k => skipDirects k
+  | .stop :: _ => []
+
 /-- the data results reached by the run -/
 def results {D} : List (Step D) → List D
   | [] => []
